@@ -14,7 +14,8 @@ file of `Spec/Sp3File.lean` is rendered by the spec writer, parsed by the model 
 with `expectedMeta` / `expectedEntries` (`thm` = the instance of `file_roundtrip` evaluates to true).
 Wire format (blank separated; texts hex, `-` = absent):
   ver  12×line1  5×line2  n n×(kind text)  filetype timesys basepos baseclk  n n×(kind text)
-  nepochs { y mo d h mi sec7 nrecs { sat x y z clk  (0 | 1 sx sy sz sclk f1 f2 f3 f4)  pad80  n n×(kind text) } } -/
+  nepochs { y mo d h mi sec7 nrecs { sat x y z clk  (0 | 1 sx sy sz sclk f1 f2 f3 f4)  pad80  n n×(kind text) } }
+extra kinds: V EP EV, and B = a blank line (text = its blanks, `.` when there are none) -/
 namespace Driver.C13
 open Midgard.Proto Midgard.Text Midgard.Sp3 Midgard.Generated.Sp3
 
@@ -57,7 +58,7 @@ def hdrKind : P HdrKind := do
   | _ => failure
 def extraKind : P ExtraKind := do
   match (← tok) with
-  | "V" => pure .vel | "EP" => pure .ep | "EV" => pure .ev
+  | "V" => pure .vel | "EP" => pure .ep | "EV" => pure .ev | "B" => pure .blank
   | _ => failure
 
 def header : P Header := do
